@@ -108,6 +108,47 @@ OBLIGATIONS['C19'] = [
     ('key::KeyType::default', 'body'), ('common::Algorithm::default', 'body'),
 ]
 
+OBLIGATIONS['C03'] += [('vstructs::lemma_structure_bytes', 'lemma'), ('vstructs::lemma_structure_inj', 'lemma'), ('vstructs::lemma_sig_structure_shape', 'lemma'),
+                       ('vstructs::lemma_sig_domain_separation', 'lemma'), ('vstructs::lemma_ctx_texts_distinct', 'lemma'), ('vstructs::lemma_ctx_bstrs_inj', 'lemma'),
+                       ('vcbor::lemma_head_pfree', 'lemma'), ('vcbor::lemma_str_pfree', 'lemma')]
+OBLIGATIONS['C04'] += [('vstructs::lemma_structure_bytes', 'lemma'), ('vstructs::lemma_mac_domain_separation', 'lemma'), ('vstructs::lemma_ctx_texts_distinct', 'lemma')]
+OBLIGATIONS['C05'] += [('vstructs::lemma_structure_bytes', 'lemma'), ('vstructs::lemma_enc_domain_separation', 'lemma'), ('vstructs::lemma_ctx_texts_distinct', 'lemma')]
+OBLIGATIONS['C16'] = [
+    ('common::Label::cmp', 'body'), ('common::Label::partial_cmp', 'body'), ('common::Label::cmp_canonical', 'body'),
+    ('common::RegisteredLabel::cmp', 'body'), ('common::RegisteredLabel::partial_cmp', 'body'),
+    ('common::RegisteredLabelWithPrivate::cmp', 'body'), ('common::RegisteredLabelWithPrivate::partial_cmp', 'body'),
+    ('common::lemma_label_eq_cmp', 'lemma'), ('common::lemma_label_cmp_laws', 'lemma'), ('common::lemma_label_obeys_cmp', 'lemma'),
+    ('common::lemma_reglabel_obeys_cmp', 'lemma'), ('common::lemma_rl_as_label_injective', 'lemma'),
+    ('vprelude::lemma_lex_*', 'lemma'),
+    ('vcbor::lemma_label_order_is_encoding_order', 'lemma'), ('vcbor::lemma_cmp_canonical_is_len_first', 'lemma'),
+    ('vcbor::lemma_head_mono_concat', 'lemma'), ('vcbor::lemma_head_major_order', 'lemma'), ('vcbor::lemma_lex_concat', 'lemma'),
+    ('proofs::label_int_order', 'kani'),
+]
+OBLIGATIONS['C18'] = [
+    ('cwt::ClaimsSet::from_cbor_value', 'body'), ('cwt::ClaimsSet::to_cbor_value', 'body'), ('cwt::Timestamp::from_cbor_value', 'body'), ('cwt::Timestamp::to_cbor_value', 'body'),
+    ('cwt::lemma_claims_*', 'lemma'),
+    ('context::PartyInfo::from_cbor_value', 'body'), ('context::PartyInfo::to_cbor_value', 'body'),
+    ('context::SuppPubInfo::from_cbor_value', 'body'), ('context::SuppPubInfo::to_cbor_value', 'body'),
+    ('context::CoseKdfContext::from_cbor_value', 'body'), ('context::CoseKdfContext::to_cbor_value', 'body'),
+    ('common::RegisteredLabelWithPrivate::from_cbor_value', 'body'), ('header::ProtectedHeader::from_cbor_bstr', 'body'),
+]
+OBLIGATIONS['C10'] = [
+    ('key::CoseKey::from_cbor_value', 'body'), ('key::CoseKeySet::from_cbor_value', 'body'), ('key::CoseKey::to_cbor_value', 'body'), ('key::CoseKeySet::to_cbor_value', 'body'),
+    ('common::Label::from_cbor_value', 'body'), ('common::RegisteredLabel::from_cbor_value', 'body'), ('common::RegisteredLabelWithPrivate::from_cbor_value', 'body'),
+    ('common::lemma_label_obeys_cmp', 'lemma'), ('common::lemma_reglabel_obeys_cmp', 'lemma'),
+    ('value::Value::try_as_map', 'body'), ('value::Value::try_as_array', 'body'), ('value::Value::try_as_nonempty_bytes', 'body'),
+]
+OBLIGATIONS['C15'] = [
+    ('common::Label::from_cbor_value', 'body'), ('common::RegisteredLabel::from_cbor_value', 'body'), ('common::RegisteredLabelWithPrivate::from_cbor_value', 'body'),
+    ('common::Label::to_cbor_value', 'body'), ('common::RegisteredLabel::to_cbor_value', 'body'), ('common::RegisteredLabelWithPrivate::to_cbor_value', 'body'),
+    ('cwt::Timestamp::from_cbor_value', 'body'), ('cwt::Timestamp::to_cbor_value', 'body'),
+    ('context::PartyInfo::from_cbor_value', 'body'), ('context::PartyInfo::to_cbor_value', 'body'),
+    ('context::SuppPubInfo::from_cbor_value', 'body'), ('context::SuppPubInfo::to_cbor_value', 'body'),
+    ('header::Header::from_cbor_value_nested', 'body'), ('key::CoseKey::from_cbor_value', 'body'), ('cwt::ClaimsSet::from_cbor_value', 'body'),
+    ('value::Value::try_as_integer', 'body'),
+    ('proofs::int_narrowing', 'kani'), ('proofs::int_widening', 'kani'),
+]
+
 # items that must FAIL verification (vacuity / soundness canaries), checked on every run
 MUST_FAIL = ['vcanary::canary_false', 'vcanary::canary_axioms']
 
